@@ -283,4 +283,12 @@ theorem end_outcome (c : Cfg) (hq : Quiet c) (hrc : c.reconnect = 0) (s : St) (t
       Bool.and_false, Bool.false_eq_true, gen_tdStops, stopPing, pg, wsClose, Bool.not_true, dropSock,
       callback_quiet c hq, he]
 
+/-- terminating events of a connection, as the property lists them -/
+def endsBy (te : TEv) : Prop :=
+  te.ev = .eof ∨ te.ev = .reset ∨ te.ev = .protoError ∨ te.ev = .payloadError ∨ ∃ b, te.ev = .close b
+
+theorem endsBy_isTerm {te : TEv} (h : endsBy te) : isTerm te.ev = true := by
+  rcases h with h | h | h | h | ⟨b, h⟩ <;> simp [h, isTerm]
+
+
 end WS.Lemmas.App
